@@ -507,3 +507,60 @@ func c07Corpus(c *Ctx) {
 		}
 	}
 }
+
+// ---- negative witnesses of validExp_sound_partial, replayed on the real code ----
+
+type c07NegWitness struct {
+	key, theorem, src, param, value string
+	env, ty, exp                    string // model side
+}
+
+func c07Witnesses(c *Ctx) {
+	r := c.Res
+	ws := []c07NegWitness{
+		{key: "C07:F9:map-file-from-map-string", theorem: "f9_binding_witness",
+			src:   "stage ST(\n    in  map<file> x,\n    out int y,\n    src comp \"fake\",\n)\n\npipeline TOP(\n    in  map<string> m,\n    out int y,\n)\n{\n    call ST(\n        x = self.m,\n    )\n    return (\n        y = ST.y,\n    )\n}\n\ncall TOP(\n    m = {\"a/b\": \"x\"},\n)\n",
+			param: "x", value: `{"a/b":"x"}`,
+			env: "1 " + hx("m") + " M string 0", ty: "M file", exp: "self " + hx("m") + " ."},
+		{key: "C07:F10:map-array-from-struct-array", theorem: "f10_binding_witness",
+			src:   "struct A(\n    int a,\n)\n\nstage ST(\n    in  map<int>[] x,\n    out int y,\n    src comp \"fake\",\n)\n\npipeline TOP(\n    in  A[] s,\n    out int y,\n)\n{\n    call ST(\n        x = self.s,\n    )\n    return (\n        y = ST.y,\n    )\n}\n",
+			param: "x", value: `[{"a":1,"x":"s"}]`,
+			env: "1 " + hx("s") + " A S " + hx("A") + " 1 " + hx("a") + " int 0", ty: "A M int", exp: "self " + hx("s") + " ."},
+	}
+	for _, w := range ws {
+		r.hist("witness_replayed")
+		rep := c.Drv.Ask("C07.exp", w.env, w.ty, w.exp)
+		if !strings.HasPrefix(rep, "true false") {
+			r.violate(Violation{Kind: "correspondence", Key: "C07:corr:witness:" + w.theorem, What: "the model no longer accepts the witness binding with holeFree = false: " + rep,
+				Input: map[string]interface{}{"program": w.src}, Broken: w.theorem})
+			continue
+		}
+		ast, err := c07RealCompile(w.src)
+		if err != nil {
+			r.note("witness %s: the compiler now rejects the binding (%s)", w.theorem, firstLine(err.Error()))
+			continue
+		}
+		var b *syntax.BindStm
+		for _, p := range ast.Pipelines {
+			for _, call := range p.Calls {
+				if call.Id == "ST" {
+					b = call.Bindings.Table[w.param]
+				}
+			}
+		}
+		if b == nil {
+			continue
+		}
+		dst := ast.TypeTable.Get(b.Tname)
+		fm, _, _ := dst.FilterJson([]byte(w.value), &ast.TypeTable)
+		var alarms strings.Builder
+		verr := dst.IsValidJson(fm, &alarms, &ast.TypeTable)
+		if verr != nil || alarms.Len() > 0 {
+			r.violate(Violation{Kind: "property", Key: w.key,
+				What:  "an accepted binding delivers a value that does not conform to the parameter type although the producer's value conforms to its declared type: " + firstLine(fmt.Sprint(verr)),
+				Input: map[string]interface{}{"program": w.src, "producer_value": w.value, "delivered": string(fm), "error": fmt.Sprint(verr, alarms.String())}, Broken: "validExp_sound (full statement)"})
+		} else {
+			r.note("witness %s no longer fails on the real code", w.theorem)
+		}
+	}
+}
